@@ -159,3 +159,13 @@ cheap_crc! {
         core::mem::forget(whole); core::mem::forget(idat);
     }
 }
+
+cheap_crc! {
+    /// thorough: further layouts (longer payloads, two chunks with trailing bytes)
+    fn k01e_idat_more_layouts() {
+        { let ok = idat_shape_x::<12, 255, 0, false>(); kani::cover!(ok, "accepted"); }
+        { let ok = idat_shape_x::<3, 4, 5, false>(); kani::cover!(ok, "accepted"); }
+        { let ok = idat_shape_x::<5, 1, 0, false>(); kani::cover!(ok, "accepted"); }
+        { let ok = idat_shape_x::<2, 2, 9, false>(); assert!(!ok); }
+    }
+}
